@@ -14,7 +14,7 @@ Proof.
   destruct o; cbn; try discriminate. intros H. apply negb_true_iff in H. rewrite H. reflexivity.
 Qed.
 
-Lemma irrelevant_spec c o sp r : irrelevant c o = true -> spec_step c sp o r = sp.
+Lemma irrelevant_spec c o sp r : irrelevant c o = true -> spec_step false c sp o r = sp.
 Proof.
   destruct o; cbn; try discriminate. intros H. apply negb_true_iff in H. rewrite H. reflexivity.
 Qed.
@@ -39,7 +39,7 @@ Proof.
   - rewrite IH. reflexivity.
 Qed.
 
-Lemma spec_relevant c ops sp r : spec_steps c sp ops r = spec_steps c sp (relevant_ops c ops) r.
+Lemma spec_relevant c ops sp r : spec_steps false c sp ops r = spec_steps false c sp (relevant_ops c ops) r.
 Proof.
   unfold spec_steps. revert sp. induction ops as [|o ops IH]; intros sp; cbn; [reflexivity|].
   destruct (irrelevant c o) eqn:E; cbn.
@@ -58,7 +58,7 @@ Proof.
 Qed.
 
 Lemma check_sig_relevant c sp ops r prev new log :
-  check_sig c sp ops r prev new log = check_sig c sp (relevant_ops c ops) r prev new log.
+  check_sig false c sp ops r prev new log = check_sig false c sp (relevant_ops c ops) r prev new log.
 Proof.
   unfold check_sig. rewrite <- (spec_relevant c ops sp r).
   rewrite <- (forallb_relevant c (fun o => cl_kill_stop c o r) ops),
@@ -82,7 +82,7 @@ Qed.
 
 Lemma good_step c init st sp o r :
   Good c init st sp -> op_ok o = true -> ResOk c o st r ->
-  Good c init (step_st c st o) (spec_step c sp o r).
+  Good c init (step_st c st o) (spec_step false c sp o r).
 Proof.
   intros HG Hok Hr. pose proof (refines_step c init st sp o r HG Hok Hr) as HR.
   destruct HG as (Hi & H0 & Hinv & _).
@@ -92,7 +92,7 @@ Qed.
 
 Lemma check_sig_nil c init st sp r :
   Good c init st sp ->
-  check_sig c sp [] r (observe st) (observe st) [] = (sp, None).
+  check_sig false c sp [] r (observe st) (observe st) [] = (sp, None).
 Proof.
   intros HG. unfold check_sig. cbn [spec_steps fold_left forallb]. f_equal.
   apply first_failing_none. cbn [forallb snd].
@@ -111,8 +111,8 @@ Qed.
 
 Lemma check_sig_single c init st sp o r :
   Good c init st sp -> op_ok o = true -> ResOk c o st r ->
-  check_sig c sp [o] r (observe st) (observe (step_st c st o)) (o_calls (step c o st))
-  = (spec_step c sp o r, None).
+  check_sig false c sp [o] r (observe st) (observe (step_st c st o)) (o_calls (step c o st))
+  = (spec_step false c sp o r, None).
 Proof.
   intros HG Hok Hr. unfold check_sig. cbn [spec_steps fold_left forallb]. f_equal.
   pose proof (good_step c init st sp o r HG Hok Hr) as HG'.
@@ -145,9 +145,9 @@ Lemma check_sig_ops c init st sp ops r :
   Good c init st sp -> Forall (fun o => op_ok o = true) ops -> AtMostOne c ops ->
   (forall o, relevant_ops c ops = [o] -> ResOk c o st r) ->
   let st' := fold_left (step_st c) ops st in
-  check_sig c sp ops r (observe st) (observe st') (calls_of c st ops)
-  = (spec_steps c sp ops r, None)
-  /\ Good c init st' (spec_steps c sp ops r).
+  check_sig false c sp ops r (observe st) (observe st') (calls_of c st ops)
+  = (spec_steps false c sp ops r, None)
+  /\ Good c init st' (spec_steps false c sp ops r).
 Proof.
   intros HG Hok H1 Hr st'. subst st'.
   rewrite check_sig_relevant, fold_relevant, calls_relevant, spec_relevant.
@@ -189,7 +189,7 @@ Lemma check_all_sound ops r log u g sps :
   (forall c st, In (c, st) g ->
      AtMostOne c ops /\ (forall o, relevant_ops c ops = [o] -> ResOk c o st r)) ->
   exists sps',
-    check_all sps ops r (obs_of g) (obs_of (gmap ops g)) log = (sps', None)
+    check_all false sps ops r (obs_of g) (obs_of (gmap ops g)) log = (sps', None)
     /\ AllGood u (gmap ops g) sps'.
 Proof.
   intros HA Hok. induction HA as [|c d st sp u g s HG HA IH]; intros Hlog Hrel.
@@ -199,7 +199,7 @@ Proof.
     + intros c' st' Hin. apply Hrel. right; exact Hin.
     + destruct (Hrel c st (or_introl eq_refl)) as [H1 H2].
       destruct (check_sig_ops c d st sp ops r HG Hok H1 H2) as [Ec HG'].
-      exists ((c, spec_steps c sp ops r) :: sps'). split.
+      exists ((c, spec_steps false c sp ops r) :: sps'). split.
       * cbn [obs_of gmap map fst snd check_all] in *. rewrite (Hlog c st (or_introl eq_refl)).
         rewrite Ec. unfold obs_of, gmap in E. rewrite E. reflexivity.
       * cbn. constructor; assumption.
@@ -381,7 +381,7 @@ Lemma group_sound u g sps ops r :
   AllGood u g sps -> NoDup (map fst g) ->
   Forall (fun o => op_ok o = true) ops -> Forall is_internal ops -> NoDup (ops_signals ops) ->
   exists sps',
-    check_all sps ops r (obs_of g) (obs_of (gmap ops g)) (model_log g ops) = (sps', None)
+    check_all false sps ops r (obs_of g) (obs_of (gmap ops g)) (model_log g ops) = (sps', None)
     /\ AllGood u (gmap ops g) sps'.
 Proof.
   intros HA Hnd Hok Hint Hnds. apply check_all_sound; auto.
@@ -403,7 +403,7 @@ Ltac group_tac :=
 Lemma gop_step_sound u g sps o :
   AllGood u g sps -> NoDup (map fst g) -> gop_ok (map fst g) o = true ->
   exists sps',
-    check_all sps (resolve o (gresult g o)) (gresult g o) (obs_of g) (obs_of (gstep g o))
+    check_all false sps (resolve o (gresult g o)) (gresult g o) (obs_of g) (obs_of (gstep g o))
               (model_log g (expand g o)) = (sps', None)
     /\ cl_take_any o (gresult g o) sps = true
     /\ AllGood u (gstep g o) sps'.
@@ -501,7 +501,7 @@ Qed.
 Lemma oracle_sound_gen u gops : forall g sps,
   AllGood u g sps -> NoDup (map fst g) ->
   Forall (fun o => gop_ok (map fst g) o = true) gops ->
-  oracle_hist sps (obs_of g) (model_trace g gops) = None.
+  oracle_hist false sps (obs_of g) (model_trace g gops) = None.
 Proof.
   induction gops as [|o gops IH]; intros g sps HA Hnd Hok; [reflexivity|].
   inversion Hok as [|? ? Ho Hrest]; subst.
@@ -515,7 +515,7 @@ Qed.
 Lemma oracle_sound_thm univ gops :
   univ_ok univ = true ->
   Forall (fun o => gop_ok (map fst univ) o = true) gops ->
-  oracle_hist (spec_inits univ) (obs_inits univ) (model_trace (ginit univ) gops) = None.
+  oracle_hist false (spec_inits univ) (obs_inits univ) (model_trace (ginit univ) gops) = None.
 Proof.
   intros Hu Hok. unfold univ_ok in Hu. apply andb_true_iff in Hu. destruct Hu as [Hs Hf].
   assert (Hk : map fst (ginit univ) = map fst univ).
